@@ -79,16 +79,16 @@ type ConnSpec struct {
 
 // Pkt is one captured frame: a TCP segment or one IPv4 fragment of it.
 type Pkt struct {
-	Conn int8  `json:"c"`
-	Dir  int8  `json:"d"`             // 0: initiator -> responder
-	SYN  bool  `json:"syn,omitempty"` //
-	FIN  bool  `json:"fin,omitempty"`
-	ACK  bool  `json:"ack,omitempty"`
-	Frag bool  `json:"fr,omitempty"` // fragment [FragOff, FragEnd) of the 20+Len byte IP payload; false = whole datagram
-	Role byte  `json:"r"`            // S syn, A syn+ack, K handshake ack, D data, R overlapping retransmission, F/G fin, L last ack
+	Conn int8   `json:"c"`
+	Dir  int8   `json:"d"`             // 0: initiator -> responder
+	SYN  bool   `json:"syn,omitempty"` //
+	FIN  bool   `json:"fin,omitempty"`
+	ACK  bool   `json:"ack,omitempty"`
+	Frag bool   `json:"fr,omitempty"` // fragment [FragOff, FragEnd) of the 20+Len byte IP payload; false = whole datagram
+	Role byte   `json:"r"`            // S syn, A syn+ack, K handshake ack, D data, R overlapping retransmission, F/G fin, L last ack
 	ID   uint16 `json:"id"`
-	Off  int32 `json:"o"` // offset of the payload in the sender's stream
-	Len  int32 `json:"l"` // payload length
+	Off  int32  `json:"o"` // offset of the payload in the sender's stream
+	Len  int32  `json:"l"` // payload length
 	// AckRel: acknowledgment number relative to the peer's ISN
 	AckRel  int32 `json:"a,omitempty"`
 	FragOff int32 `json:"fo,omitempty"`
